@@ -181,6 +181,7 @@ def lib_view(schema):
     return {
         "fields": fields,
         "header": lib_members(schema._header),
+        "trailer": lib_members(schema._trailer) if getattr(schema, "_trailer", None) is not None else "<no _trailer attribute>",
         "messages": messages,
         "types": {t: m.name for t, m in schema._messages_types.items()},
         "components": {n: lib_members(c) for n, c in schema._components.items()},
@@ -191,6 +192,7 @@ def ref_view(ref: RefSchema):
     return {
         "fields": [(f.tag, f.name, f.ftype, list(f.enums)) for f in ref.fields],
         "header": ref.header,
+        "trailer": ref.trailer,
         "messages": [(m.name, m.msgtype, m.msgcat, m.members) for m in ref.messages],
         "types": {m.msgtype: m.name for m in ref.messages},
         "components": {n: ref._component(n, ()) for n, _ in ref.decls},
@@ -200,9 +202,11 @@ def ref_view(ref: RefSchema):
 def diff_views(a, b, limit=5):
     """list of human-readable differences between two views (empty = equal)"""
     out = []
-    for k in ("fields", "header", "messages", "types", "components"):
+    for k in ("fields", "header", "trailer", "messages", "types", "components"):
         if a[k] != b[k]:
-            if isinstance(a[k], list):
+            if not isinstance(a[k], (list, dict)) or not isinstance(b[k], (list, dict)):
+                out.append(f"{k}: ref={str(a[k])[:200]} lib={str(b[k])[:200]}")
+            elif isinstance(a[k], list):
                 for i, (x, y) in enumerate(zip(a[k], b[k])):
                     if x != y:
                         out.append(f"{k}[{i}]: ref={str(x)[:200]} lib={str(y)[:200]}")
